@@ -114,7 +114,7 @@ type c19DevCfg struct {
 	gpus    int
 	rdma    int
 	shapes  []string
-	maxPods int // surviving pod objects (bound or terminated) at any time
+	maxPods int // surviving bound pod objects at any time
 	depthQ  int
 	depthT  int
 	share   float64
@@ -394,7 +394,7 @@ func c19DevOps(cfg *c19DevCfg) []c19DevOp {
 		ops = append(ops,
 			c19DevOp{fmt.Sprintf("informer-bind-update(slot%d)", j), c19DevOpSeesBind, j},
 			c19DevOp{fmt.Sprintf("delete(slot%d)", j), c19DevOpDelete, j},
-			c19DevOp{fmt.Sprintf("terminate(slot%d)", j), c19DevOpTerminate, j},
+			c19DevOp{fmt.Sprintf("terminated=leaves-the-filtered-watch(slot%d)", j), c19DevOpTerminate, j},
 		)
 	}
 	return ops
@@ -504,6 +504,18 @@ func (s *c19DevSys) schedule(shapeIdx int, check bool) (bool, []mc.Violation) {
 	return true, viol
 }
 
+// seeBind: the informer delivers the scheduler's own writes: the PreBind patch, then the binding
+func (s *c19DevSys) seeBind(p *c19DevPod) {
+	if p.seenBind {
+		return
+	}
+	patched := p.obj.DeepCopy()
+	patched.Spec.NodeName, patched.ResourceVersion, patched.Status.Phase = "", "2", corev1.PodPending
+	s.pl.nodeDeviceCache.onPodUpdate(p.pending, patched)
+	s.pl.nodeDeviceCache.onPodUpdate(patched, p.obj)
+	p.seenBind = true
+}
+
 func (s *c19DevSys) Apply(opi int, check bool) (bool, []mc.Violation) {
 	op := s.ops[opi]
 	switch op.kind {
@@ -530,29 +542,26 @@ func (s *c19DevSys) Apply(opi int, check bool) (bool, []mc.Violation) {
 	c := s.pl.nodeDeviceCache
 	switch op.kind {
 	case c19DevOpSeesBind:
-		if p.seenBind || p.terminated {
+		if p.seenBind {
 			return false, nil
 		}
-		// the informer delivers the scheduler's own writes: the PreBind patch, then the binding
-		patched := p.obj.DeepCopy()
-		patched.Spec.NodeName, patched.ResourceVersion, patched.Status.Phase = "", "2", corev1.PodPending
-		c.onPodUpdate(p.pending, patched)
-		c.onPodUpdate(patched, p.obj)
-		p.seenBind = true
+		s.seeBind(p)
 	case c19DevOpDelete:
+		s.seeBind(p) // events of one object are ordered: the bind updates precede the delete
 		c.onPodDelete(p.obj)
 		s.pods = append(append([]*c19DevPod{}, s.pods[:op.a]...), s.pods[op.a+1:]...)
 		if check {
 			s.count("pod_deletes", 1)
 		}
 	case c19DevOpTerminate:
-		if p.terminated {
-			return false, nil
-		}
+		// the scheduler's pod informer filters on status.phase != Succeeded/Failed (kube-scheduler's newPodInformer, which
+		// koord-scheduler keeps): a pod that terminates leaves the watch, i.e. it is delivered as a DELETE carrying the
+		// terminated object, and it is not listed after a restart
+		s.seeBind(p)
 		done := p.obj.DeepCopy()
 		done.Status.Phase, done.ResourceVersion = corev1.PodSucceeded, "4"
-		c.onPodUpdate(p.obj, done)
-		p.obj, p.terminated = done, true
+		c.onPodDelete(done)
+		s.pods = append(append([]*c19DevPod{}, s.pods[:op.a]...), s.pods[op.a+1:]...)
 		if check {
 			s.count("pod_terminations", 1)
 		}
@@ -654,9 +663,6 @@ func (s *c19DevSys) restartCheck() *c19DevVerdict {
 	}
 	if holding >= 2 {
 		v.counts["states_with_2+_surviving_bound_pods"]++
-	}
-	if holding < len(s.pods) {
-		v.counts["states_with_surviving_terminated_pod"]++
 	}
 	// sanity of the live side against the plain reference (a failure here is C07's business: diagnostic only)
 	if bad := s.heldNotFree(live); len(bad) > 0 {
@@ -875,7 +881,7 @@ func TestVerifC19Dev(t *testing.T) {
 			names = append(names, o.name)
 		}
 		res.Rule = fmt.Sprintf("live histories: every sequence up to the depth over %v on the real deviceshare Plugin (PreFilter, Reserve, PreBind, Unreserve) and nodeDeviceCache handlers, node with %d GPU(s) and %d RDMA device(s) with 2 VFs; "+
-			"every reached state is cut there and the persisted objects (Device CR + <= %d surviving pod objects with their device-allocated annotation) are replayed into a fresh nodeDeviceCache in EVERY permutation; "+
+			"every reached state is cut there and the persisted objects (Device CR + <= %d surviving bound pod objects with their device-allocated annotation) are replayed into a fresh nodeDeviceCache in EVERY permutation; "+
 			"per permutation additionally, for every object, one duplicate add and one update carrying the same allocation, each placed directly after the object's add and after all adds; "+
 			"a state is distinct when the live ledgers (raw) or the surviving objects differ; non-trivial = at least one surviving bound pod", names, cfg.gpus, cfg.rdma, cfg.maxPods)
 		res.Assumptions = []string{
@@ -890,7 +896,7 @@ func TestVerifC19Dev(t *testing.T) {
 		res.Bounds["surviving_pod_objects_max"] = cfg.maxPods
 		res.Evaluations += res.Counters["rebuilds"]
 		res.Distinct = cfg.nontrv.Len()
-		for _, need := range []string{"binds", "readback_equal", "states_with_surviving_bound_pods", "states_with_2+_surviving_bound_pods", "states_with_surviving_terminated_pod",
+		for _, need := range []string{"binds", "readback_equal", "states_with_surviving_bound_pods", "states_with_2+_surviving_bound_pods",
 			"rebuilds_plain", "rebuilds_dup-add-pod", "rebuilds_same-update-pod", "rebuilds_dup-add-device", "rebuilds_same-update-device", "rebuilds_pod_before_device",
 			"corollary_checked", "pod_deletes", "pod_terminations", "reserve_unreserve_cycles", "binds_multi_device"} {
 			if res.Counters[need] == 0 {
